@@ -18,3 +18,10 @@ pub use strum::IntoEnumIterator as IterableEnum;
 extern crate alloc;
 
 pub type Result<T> = core::result::Result<T, error::Error>;
+
+/// Verification hook: re-export of the crate-private tape implementation so that the pulse
+/// generator can be driven directly. Compiled only with `--cfg rustzx_verif`.
+#[cfg(rustzx_verif)]
+pub mod verif_tape {
+    pub use crate::zx::tape::{Tap, TapeImpl};
+}
